@@ -32,7 +32,7 @@ META = {
 QL = [10, 7, 4]
 BL = [5, 9, 3]
 TP = {"P": "\ttp:A:P", "S": "\ttp:A:S", "I": "\ttp:A:I", "p": "\ttp:A:p", "-": ""}
-CIGARS = ["10=", "5=1X4=", "3=2I3=2D2=", "60D1=", "4=55I1X1X", "2X2X"]
+CIGARS = ["10=", "5=1X4=", "3=2I3=2D2=", "60D1=", "4=55I1X1X", "2X2X", ""]
 NAMES = [["a", "a", "a"], ["a", "a", "b"], ["a", "b", "a"], ["a", "b", "b"], ["a", "b", "c"]]
 
 
@@ -66,6 +66,9 @@ def harnesses(tier):
     for i, cg in enumerate(itertools.combinations(range(len(CIGARS)), 2)):
         hs.append({"id": "cigar/%d-%d" % cg, "params": {"tp": ["P", "-"], "names": ["a", "b"], "cigar": True, "cigars": list(cg)}, "timeout": 200,
                    "twin": i == 0})
+    for a, b in ((1, 6), (6, 2), (2, 6)):
+        hs.append({"id": "cigar/nocg-%d-%d" % (a, b), "params": {"tp": ["P", "P"], "names": ["a", "b"], "cigar": True, "cigars": [a, b]}, "timeout": 200})
+    hs.append({"id": "cigar/nocg3", "params": {"tp": ["P", "S", "-"], "names": ["a", "a", "b"], "cigar": True, "cigars": [4, 1, 6]}, "timeout": 300})
     hs.append({"id": "cigar/secondary", "params": {"tp": ["S", "P"], "names": ["a", "a"], "cigar": True, "cigars": [2, 4]}, "timeout": 200})
     return hs
 
@@ -200,7 +203,8 @@ def replay(params, model, wd):
     cig = [CIGARS[i] for i in params["cigars"]] if params.get("cigar") else ["5="] * n
     lines = []
     for i in range(n):
-        lines.append("%s\t%d\t%d\t%d\t+\t>s1\t100\t0\t50\t%d\t%d\t%d%s\tcg:Z:%s" % (names[i], QL[i], qs[i], qe[i], rm[i], BL[i], mq[i], TP[tps[i]], cig[i]))
+        lines.append("%s\t%d\t%d\t%d\t+\t>s1\t100\t0\t50\t%d\t%d\t%d%s%s" % (names[i], QL[i], qs[i], qe[i], rm[i], BL[i], mq[i], TP[tps[i]],
+                                                                              ("\tcg:Z:" + cig[i]) if cig[i] else ""))
     gaf = os.path.join(wd, "x.gaf")
     open(gaf, "w").write("".join(l + "\n" for l in lines))
     out = os.path.join(wd, "o.txt")
